@@ -126,8 +126,8 @@ func verifEqualFoldASCII(a, b string) bool {
 	eq := true
 	for i := 0; i < len(a); i++ {
 		x, y := a[i], b[i]
-		lx := verifapi.Ite(x >= 'A' && x <= 'Z', int(x)+32, int(x))
-		ly := verifapi.Ite(y >= 'A' && y <= 'Z', int(y)+32, int(y))
+		lx := verifapi.Ite(verifapi.All(x >= 'A', x <= 'Z'), int(x)+32, int(x))
+		ly := verifapi.Ite(verifapi.All(y >= 'A', y <= 'Z'), int(y)+32, int(y))
 		eq = verifapi.All(eq, lx == ly)
 	}
 	return eq
